@@ -49,6 +49,7 @@ class TruthfulStatus(FlowBase):
             sig.setdefault("pause_req", sim.h["pause_req"])
             sig.setdefault("cancel_req", sim.h["cancel_req"])
             sig.setdefault("after_partial_join_rerun", sim.h["rejoin"])
+            sig.setdefault("with_items_item_went_pending", bool(sim.h.get("item_went_pending")))
             return [{"kind": kind, "sig": sig,
                      "detail": {"inflight": list(infl), "fatal": g["fatal"], "status": status}}]
 
